@@ -399,13 +399,17 @@ impl MqttShared {
     fn pkt_ack_inner(&self, pkt: Ack) -> Result<(), error::ProtocolError> {
         let mut queues = self.queues.borrow_mut();
 
-        // check ack order; PUBCOMP answers PUBREL and is ordered among PUBCOMPs only,
-        // it is not ordered against PUBACK/PUBREC/SUBACK/UNSUBACK
+        // check ack order; PUBCOMP answers PUBREL, which application releases in any order,
+        // so it is matched by packet id among released exchanges and is not ordered
+        // against PUBACK/PUBREC/SUBACK/UNSUBACK
         let complete = matches!(pkt, Ack::Complete(_));
-        let pos = queues
-            .inflight
-            .iter()
-            .position(|item| matches!(item.2, AckType::Complete) == complete);
+        let pos = queues.inflight.iter().position(|item| {
+            if complete {
+                matches!(item.2, AckType::Complete) && item.0 == pkt.packet_id()
+            } else {
+                !matches!(item.2, AckType::Complete)
+            }
+        });
         if let Some((idx, tx, tp)) = pos.and_then(|pos| queues.inflight.remove(pos)) {
             if idx != pkt.packet_id() {
                 log::trace!(
